@@ -53,7 +53,7 @@ var c15LossNames = []string{"CH0#1", "CH1#1", "HVR#1", "F5b#1", "F6#1"}
 func (c15) ID() string    { return "C15" }
 func (c15) Level() string { return "exploration" }
 func (c15) Rule() string {
-	return "each case draws a suite, a path MTU for each side independently (from 200 up to above the record limit, 0 = default 1400), client authentication on/off, a list of WriteTo payload sizes around the boundaries (0, 1, the exact maximum payload for that MTU and suite computed by the reference record format, one and sixteen bytes above it, 16384) for both directions, optionally one large Write through the stream API, optionally on a resumed connection, ReadFrom buffers either large or exactly the size of the payload due, 0-2 losses of handshake datagrams whose retransmission is known to work (so that retransmitted flights are measured too), optionally a server reached through a listener configuration of another PMTU whose GetConfigForClient returns the configuration in force, and optionally a server certificate chain that makes the Certificate message 16.4-17.3 KB (a handshake message above the record limit). Oracle (wire monitor over everything handed to the PacketConn): every datagram <= the sender's path MTU; no record with more than 16384 plaintext bytes; a retransmitted flight whose first transmission was within the path MTU stays within it; a WriteTo of at most the maximum payload is exactly one datagram and the peer's ReadFrom returns exactly that payload; larger writes through Write arrive complete and in order. Path MTUs also near the smallest workable value (50-80 with GCM, 77-107 with CBC; no losses there): every handshake record, Finished included, must fit the sender's path MTU; the answering side may wait 1.5 / 5 s while the other waits without a read deadline of its own. A quarter of the cases add payloads that look like record-layer artefacts (01 00, 02 28, 00 00, 01, 14 01 01): each must come out of ReadFrom as it went in. distinct = distinct parameter vectors; non-trivial = handshake completed and at least one boundary-size payload crossed"
+	return "each case draws a suite, a path MTU for each side independently (from 200 up to above the record limit, 0 = default 1400), client authentication on/off, a list of WriteTo payload sizes around the boundaries (0, 1, the exact maximum payload for that MTU and suite computed by the reference record format, one and sixteen bytes above it, 16384) for both directions, optionally one large Write through the stream API, optionally on a resumed connection, ReadFrom buffers either large or exactly the size of the payload due, 0-2 losses of handshake datagrams whose retransmission is known to work (so that retransmitted flights are measured too), optionally a server reached through a listener configuration of another PMTU whose GetConfigForClient returns the configuration in force, and optionally a server certificate chain that makes the Certificate message 16.4-17.3 KB (a handshake message above the record limit). Oracle (wire monitor over everything handed to the PacketConn): every datagram <= the sender's path MTU; no record with more than 16384 plaintext bytes; a retransmitted flight whose first transmission was within the path MTU stays within it; a WriteTo of at most the maximum payload is exactly one datagram and the peer's ReadFrom returns exactly that payload; larger writes through Write arrive complete and in order. Path MTUs also near the smallest workable value (50-80 with GCM, 77-107 with CBC): every handshake record, Finished included, must fit the sender's path MTU; the answering side may wait 1.5 / 5 s while the other waits without a read deadline of its own. A quarter of the cases add payloads that look like record-layer artefacts (01 00, 02 28, 00 00, 01, 14 01 01): each must come out of ReadFrom as it went in. distinct = distinct parameter vectors; non-trivial = handshake completed and at least one boundary-size payload crossed"
 }
 func (c15) Components() (real, stub []string) {
 	return []string{"dtlcp client+server (instrumented): record sizing, handshake fragmentation, flight buffering and flush, retransmission"},
@@ -164,10 +164,7 @@ func drawC15(src *vs.Src) *c15Params {
 	if src.Bool(1, 4) {
 		p.AlertLike, p.Zero, p.Big = true, false, 0
 	}
-	if p.PMTUC < 200 && p.PMTUC > 0 || p.PMTUS < 200 && p.PMTUS > 0 {
-		// below the range the loss cases were designed for (what a lost datagram costs there is C19's subject)
-		p.Loss = nil
-	}
+
 	return p
 }
 
